@@ -1145,7 +1145,8 @@ impl FlexBuffer {
     }
 }
 
-/// Arguments are layout compatible if their native versions are layout_compatible,
+/// Arguments are layout compatible if their native versions are layout_compatible
+/// and unchanged between the native and the effective version,
 /// or if they are traits and the effective version of the traits are compatible.
 /// For traits, the actual fat pointer is always compatible, so can always be used.
 /// The trait-objects themselves can never be serialized, so they can only be used as references.
@@ -1234,7 +1235,11 @@ fn arg_layout_compatible(
             effective_a2.verify_backward_compatible(effective_version, effective_b2, is_return_position)?;
             Ok(true)
         }
-        (a, b) => Ok(a.layout_compatible(b)),
+        // A reference can only be passed as-is if both sides have the same memory layout AND that layout means the
+        // same thing: if either side's type differs between its native version and the negotiated (effective)
+        // version, the bytes of a field that one side has removed may sit where the other side has added a new
+        // field. Such arguments must go through serialization, which fills in defaults.
+        (a, b) => Ok(a.layout_compatible(b) && a == a_effective && b == b_effective),
     }
 }
 
